@@ -15,7 +15,7 @@ def nontrivial(d):
 # the known classes (an unexplained failure in the same case keeps the case a violation).
 
 # F-C17-1: types that contain a `skip_serializing_if` field which is actually skipped in the state reached
-T_BIN_SKIPPED = {"Locomotive.relaxed", "Locomotive.mu", "LocomotiveSimulation.relaxed", "SpeedLimitTrainSim.mu", "FuelConverter", "Generator", "ElectricDrivetrain", "ElectricDrivetrain.bel", "ReversibleEnergyStorage",
+T_BIN_SKIPPED = {"FuelConverter.init40", "Locomotive.init40", "LocomotiveSimulation.init40", "Consist.init40", "Locomotive.relaxed", "Locomotive.mu", "LocomotiveSimulation.relaxed", "SpeedLimitTrainSim.mu", "FuelConverter", "Generator", "ElectricDrivetrain", "ElectricDrivetrain.bel", "ReversibleEnergyStorage",
                  "Locomotive.conv", "Locomotive.bel", "Locomotive.hybrid", "Consist", "LocomotiveSimulation", "LocomotiveSimulation.bel",
                  "LocomotiveSimulationVec", "ConsistSimulation", "SetSpeedTrainSim", "SetSpeedTrainSim.default",
                  "Network", "TrainConfig", "TrainSimBuilder", "TrainSimBuilder.init", "TrainSimBuilder.nan"}
@@ -165,7 +165,7 @@ _TECH = "TLA+ refinement statement + TLC schedule enumeration + spec->impl repla
 MANIFEST = {
     "C17": dict(engine="Checkpoint", design_ref="3 (C17)", technique=_TECH, category="exploration",
                 text="Exploration with a model-checked schedule space: TLC enumerates all schedules over {Step, SaveLoad(yaml), "
-                     "SaveLoad(json), SaveLoad(bin)} up to depth 6 for 32 object kinds (components, locomotives incl. assert_limits = false and known-mu units, consists, traces, "
+                     "SaveLoad(json), SaveLoad(bin)} up to depth 6 for 36 object kinds (components, locomotives incl. assert_limits = false, known-mu and raised-baseline-limit units, consists, traces, "
                      "train configs / builders, PathTpc finished and unfinished, locomotive / consist / set-speed / speed-limit "
                      "simulations, networks, est-time networks, locations) and checks that SaveLoad is a stuttering step of the "
                      "observable trajectory on the abstract object; every schedule (quick: depth 4 / 3; thorough: a 25 000 sample "
